@@ -66,7 +66,7 @@ def boson_frame(w, h, fid, level, zero_at=None):
 
 
 def build_conn(rng, settings, w, h, fps, model, first_id, nitems, with_clear=True, with_bad=False, brand="flir",
-               clear_runs=False, sustain=0.0):
+               clear_runs=False, sustain=0.0, rm_temps=0, end_in_motion=False):
     """Returns (conn dict for the driver, model events for SystemTrace, next id)."""
     boson = model == "boson"
     fsize = 2 * w * h if boson else 640 + 2 * w * h
@@ -93,10 +93,27 @@ def build_conn(rng, settings, w, h, fps, model, first_id, nitems, with_clear=Tru
         sustain_at = rng.randrange(2, max(3, nitems // 2))
     else:
         sustain_at = -1
+    # rm_temps: before that many items the harness unlinks every *.cptv.temp of the output directory (the rename that
+    # finishes the motion recording in progress will fail; nothing else may change).  With clear_runs as well, one of
+    # them sits inside a forced stretch of motion and is followed by camera-restart markers two frames later.
+    rm_items, rm_offsets = set(), []
+    if rm_temps and nitems > 20:
+        rm_items = set(rng.sample(range(4, nitems - 2), rm_temps))
+        if clear_runs:
+            i0 = rng.randrange(5, nitems - (trig + 10))
+            sustain_at = i0
+            storm = (i0, i0 + trig + 2, i0 + trig + 4)
+            rm_items.add(storm[1])
+            forced.add(storm[2])
     while i < nitems:
         r = rng.random()
+        if i in rm_items:
+            ev.append(dict(ev="rmtemps"))
+            rm_offsets.append(len(payload))
         if i == sustain_at:
             sustain_left = maxf + nring + rng.randint(2, maxf + 5)
+        if end_in_motion and i == nitems - (trig + 2):
+            sustain_left = trig + 2        # the connection ends while a motion recording is (very likely) open
         if with_clear and ((r < 0.03 and since > 0) or i in forced):
             for _ in range(rng.choice([2, 2, 3]) if i in forced else 1):
                 payload += b"clear"
@@ -129,6 +146,8 @@ def build_conn(rng, settings, w, h, fps, model, first_id, nitems, with_clear=Tru
     # file names have 1 ms resolution: never deliver two frames within the same millisecond
     conn = dict(header=header, payload=base64.b64encode(bytes(payload)).decode(), cuts=cuts, settle_ms=50,
                 pace_at=pace_at, pace_ms=5)
+    if rm_offsets:
+        conn["rm_temps_at"] = rm_offsets
     return conn, ev, fid
 
 
@@ -154,6 +173,12 @@ def run_e2e(ctx, binp, scen, name):
                        capture_output=True, text=True, timeout=300)
     if r.returncode != 0 and "unexpected call to os.Exit(0) during test" in (r.stdout + r.stderr):
         raise DaemonExit(vlib.read_ndjson(op) if os.path.exists(op) else [])
+    if os.path.exists(op):
+        st = [e for e in vlib.read_ndjson(op) if e["ev"] == "e2e-stall"]
+        if st:
+            # the daemon stopped reading the frame socket (five consecutive items not taken within 2 s each)
+            raise DaemonCrash("the daemon stopped reading the frame socket (connection %d, after %d bytes)\n%s"
+                              % (st[0]["conn"], st[0]["sent"], st[0].get("log", "")[-1200:]), scen)
     if r.returncode != 0 and "panic:" in (r.stdout + r.stderr) and "goroutine" in (r.stdout + r.stderr):
         # the daemon itself crashed on a valid scenario: that is behaviour of the code under test, not of the harness
         raise DaemonCrash((r.stdout + r.stderr)[-2500:], scen)
@@ -397,7 +422,7 @@ def thr_probe_runs(ctx, binp):
         sseed = rng.randrange(1 << 30)
         # d = -1: a bucket smaller than one minimum-length recording (nothing may ever be recorded)
         for bucket_s in [mn + preview + d for d in ((-1, 1, 2, 3) if ctx.tier == "quick" else (-1, 0, 1, 2, 3, 4, 5)) if mn + preview + d >= 1]:
-            settings = dict(min=mn, max=mx, preview=preview, const=False, throttle=True, bucket="%ds" % bucket_s, refill="24h",
+            settings = dict(min=mn, max=mx, preview=preview, const=(k % 2 == 1), throttle=True, bucket="%ds" % bucket_s, refill="24h",
                             motion=dict(FIXED_MOTION, **{"trigger-frames": trig}), device="dev", deviceid=7)
             w, h = 4, 3
             conn, ev, fid = build_conn(random.Random(sseed), settings, w, h, fps, model, 1, 90 + 12 * fps, with_clear=(k % 3 == 0), with_bad=False)
@@ -425,7 +450,7 @@ def thr_refill_runs(ctx, binp):
         mn, preview = 1, rng.choice([0, 1])
         trig = [fps, 1, 2 * fps, 2][k % 4]
         bucket_s, refill_s = rng.choice([2, 3]), rng.choice([1, 2])
-        settings = dict(min=mn, max=rng.choice([mn, mn + 3]), preview=preview, const=False, throttle=True, bucket="%ds" % bucket_s,
+        settings = dict(min=mn, max=rng.choice([mn, mn + 3]), preview=preview, const=(k % 2 == 0), throttle=True, bucket="%ds" % bucket_s,
                         refill="%ds" % refill_s, motion=dict(FIXED_MOTION, **{"trigger-frames": trig}))
         w, h = 4, 3
         fsize = 640 + 2 * w * h
@@ -565,6 +590,35 @@ def cfgwatch_runs(ctx, binp):
             if exited and j == len(rw):
                 break
     return trace, None
+
+
+def c03_disconnect_runs(ctx, binp):
+    """C03 at the daemon's edges: a camera connection that ends in the middle of a motion recording.  That recording
+    reached neither limit, so nothing may be published for it; the next connection starts afresh."""
+    rng = ctx.rng
+    runs = []
+    for k in range(2 if ctx.tier == "quick" else 10):
+        settings, fps = gen_settings(rng)
+        settings["min"], settings["max"] = max(1, settings["min"]), max(2, settings["max"])    # long enough to be cut by the disconnect
+        settings["const"] = (k % 2 == 1)
+        w, h = 4, 3
+        model = rng.choice(["lepton3", "boson"])
+        conns, mev, fid = [], [], 1
+        for c in range(2):
+            conn, ev, fid = build_conn(rng, settings, w, h, fps, model, fid, rng.randint(25, 50), with_clear=False, with_bad=False,
+                                       end_in_motion=True)
+            conns.append(conn)
+            mev += ev
+        scen = dict(config=toml(settings), prefiles=[], conns=conns)
+        try:
+            evs = run_e2e(ctx, binp, scen, "c03d_%d" % k)
+        except DaemonCrash as dc:
+            runs.append(dict(kind="crash", settings=settings, fps=fps, model=model, msg=dc.msg, result=dict(files=[], constant=[])))
+            continue
+        last = [e for e in evs if e["ev"] == "e2e-conn-done"][-1]
+        runs.append(dict(kind="predict", settings=settings, fps=fps, model=model, model_events=mev, result=last, scen=scen,
+                         expected_motion={}))
+    return runs
 
 
 def c17_reconnect_runs(ctx, binp):
